@@ -520,6 +520,8 @@ def run_property(prop, tier, seed, only=None, list_only=False, jobs=10, write_ev
     runnable.sort(key=lambda h: -h['cap'])
     rnd = random.Random(seed * 7919 + sum(map(ord, prop)))
     nx = 2 if tier == 'quick' else 5
+    if os.environ.get('VERIF_NO_XCHECK'):
+        nx = 0  # development runs only
     cand = [h for h in runnable if h['cap'] <= 400]
     rnd.shuffle(cand)
     if not cand:
@@ -527,9 +529,7 @@ def run_property(prop, tier, seed, only=None, list_only=False, jobs=10, write_ev
     drv = {}
     with cf.ThreadPoolExecutor(max_workers=max(1, jobs)) as ex:
         futs = {ex.submit(run_harness, h, metas[h['group']][h['full']], workdir): h for h in runnable}
-        dfuts = {ex.submit(kani_driver_run, h, 6 * h['cap'] + 300, prop): h for h in cand[:nx]}
-        for f in cf.as_completed(dfuts):
-            drv[dfuts[f]['name']] = f.result()
+        dfuts = {ex.submit(kani_driver_run, h, 2 * h['cap'] + 120, prop): h for h in cand[:nx]}
         for f in cf.as_completed(futs):
             h = futs[f]
             r = f.result()
@@ -540,6 +540,8 @@ def run_property(prop, tier, seed, only=None, list_only=False, jobs=10, write_ev
             r['file'] = h['file']
             results.append(r)
             log('[%s] %-52s %-8s %6.1fs %s' % (prop, r['name'], r['status'], r.get('wall_s', 0), r['detail'][:140]))
+        for f in cf.as_completed(dfuts):
+            drv[dfuts[f]['name']] = f.result()
     results.sort(key=lambda r: r['name'])
     hmap = {h['name']: h for h in hs}
 
